@@ -57,6 +57,14 @@ def run(ctx):
             extra.append({"seed": ctx.seed, "jitter": 0.0, "payloads": {"f": {"flavour": ff}, "t1": {"flavour": "trio", "cleanup": 1, "shielded": 2}, "t2": {"flavour": "trio", "cleanup": 0, "shielded": 2}},
                           "script": [{"op": "adopt", "p": "f"}, {"op": "adopt", "p": "t1"}, {"op": "adopt", "p": "t2"}, {"op": "accept"}, {"op": "wait_running"}, {"op": "wait_start", "p": "f"}, {"op": "wait_start", "p": "t1"}, {"op": "wait_start", "p": "t2"}, {"op": "end", "p": "f", "how": how}, {"op": "wait_end"}],
                           "poll": 0.004, "shape": "targeted-trio-" + how})
+    # a payload parked on an awaitable that only its own frame refers to, and a cyclic garbage
+    # collection during the run: the payload is still there to be cancelled at termination
+    for ff in scen.FLAVS:
+        for pf in ("asyncio", "trio"):
+            extra.append({"seed": ctx.seed, "jitter": 0.0, "payloads": {"f": {"flavour": ff}, "c1": {"flavour": pf, "cleanup": 2}, "c2": {"flavour": pf, "cleanup": 1}},
+                          "script": [{"op": "adopt", "p": "f"}, {"op": "adopt", "p": "c1"}, {"op": "accept"}, {"op": "wait_running"}, {"op": "adopt", "p": "c2", "ctx": "thread"},
+                                     {"op": "wait_start", "p": "f"}, {"op": "wait_start", "p": "c1"}, {"op": "wait_start", "p": "c2"}, {"op": "park", "p": "c1"}, {"op": "park", "p": "c2"},
+                                     {"op": "gc"}, {"op": "sleep", "ms": 30}, {"op": "gc"}, {"op": "end", "p": "f", "how": "exc:UserExc"}, {"op": "wait_end"}], "shape": "targeted-parked-gc"})
     # payloads adopted while the runtime is already closing must be cancelled as well
     for trig in ([{"op": "end", "p": "f", "how": "exc:UserExc"}], [{"op": "sigint"}], [{"op": "shutdown", "ctx": "thread", "wait": False}]):
         for late in ("asyncio", "trio"):
